@@ -40,17 +40,22 @@ func try(data []byte, origin string) {
 	// independent acceptance predicate
 	wantOK := false
 	var w *vlib.WireVAA
-	if len(in) >= 6 && in[0] == 1 && len(in) >= 6+66*int(in[5])+54 {
+	emptyPayload := false
+	if len(in) >= 6 && in[0] == 1 && len(in) >= 6+66*int(in[5])+53 && len(in) >= 57 {
 		var e error
 		w, e = vlib.ParseWire(in)
 		wantOK = e == nil
+		// A complete body with a zero-length payload is what Marshal writes for a message
+		// without payload: the property leaves open whether the decoder takes it; if it does
+		// it must decode and re-encode exactly like any other accepted input.
+		emptyPayload = len(in) == 6+66*int(in[5])+53
 	}
 	if err != nil {
 		r.Count("rejected", 1)
 		if v != nil {
 			r.Violation("unmarshal:partial-vaa-with-error", map[string]interface{}{"input": vlib.Hex(in), "origin": origin})
 		}
-		if wantOK {
+		if wantOK && !emptyPayload {
 			r.Violation("unmarshal:rejects-valid-encoding:"+origin, map[string]interface{}{"input": vlib.Hex(in), "len": len(in), "err": err.Error()})
 		}
 		return
